@@ -36,7 +36,7 @@ type c06Req struct {
 	Start             time.Duration
 }
 
-var c06Mods = []string{"ps", "pgp", "jar", "cat", "appmanifest", "pe-coff", "msi"}
+var c06Mods = []string{"ps", "pgp", "jar", "cat", "appmanifest", "pe-coff", "msi", "vsix", "mach-o"}
 
 func c06Run(r *core.Run) {
 	t := r.T
